@@ -90,10 +90,27 @@ def accepted_by_io(info):
     """fact: PrecomputedIO (get_encoder for every scale) accepts the info"""
     from neuroglancer_scripts import precomputed_io
     try:
-        precomputed_io.PrecomputedIO(json.loads(json.dumps(info)), None)
-        return True, ""
+        io_obj = precomputed_io.PrecomputedIO(json.loads(json.dumps(info)), None)
     except Exception as e:  # recorded
         return False, type(e).__name__
+    # ... and its validator accepts the chunk grid the info describes: first, last and a middle
+    # chunk of every scale and chunk size (what the conversion and the pyramid computation write)
+    for sc in info["scales"]:
+        size = sc["size"]
+        for cs in sc["chunk_sizes"]:
+            n = [(size[d] - 1) // cs[d] + 1 for d in range(3)]
+            for idx in ([0, 0, 0], [n[0] - 1, n[1] - 1, n[2] - 1], [n[0] // 2, n[1] // 2, n[2] // 2],
+                        [n[0] - 1, 0, n[2] // 2], [0, n[1] - 1, 0], [0, 0, n[2] - 1]):
+                c = []
+                for d in range(3):
+                    lo = idx[d] * cs[d]
+                    c += [lo, min(lo + cs[d], size[d])]
+                try:
+                    if not io_obj.validate_chunk_coords(sc["key"], tuple(c)):
+                        return False, "GridRejected"
+                except Exception as e:  # recorded
+                    return False, "Grid:" + type(e).__name__
+    return True, ""
 
 
 def run_direct(inp, dtype="uint8", channels=1):
